@@ -33,6 +33,7 @@ func Run(c *core.Ctx) {
 	for _, nm := range utf8Names {
 		doUTF8(c, nm)
 		doUTF8Inner(c, nm)
+		doUTF8Comment(c, nm)
 	}
 	for _, l := range fixedLiterals {
 		doFloat(c, l)
@@ -88,6 +89,16 @@ func Replay(c *core.Ctx, lines []string) {
 			continue
 		}
 		switch f[0] {
+		case "C01.rt0":
+			// the dump cannot carry -0.0: the sign bits are the second field
+			n, err := core.ParseDump(f[1])
+			if err != nil {
+				panic(err)
+			}
+			if len(f) > 2 {
+				applySigns(n, f[2])
+			}
+			doRT(c, n)
 		case "C01.rt":
 			n, err := core.ParseDump(f[1])
 			if err != nil {
@@ -118,6 +129,12 @@ func Replay(c *core.Ctx, lines []string) {
 				panic(err)
 			}
 			doFloat(c, s)
+		case "C01.utf8c":
+			s, err := core.Unescape(f[1])
+			if err != nil {
+				panic(err)
+			}
+			doUTF8Comment(c, s)
 		case "C01.utf8i":
 			s, err := core.Unescape(f[1])
 			if err != nil {
@@ -170,6 +187,84 @@ func roundTrip(n *core.N) (fields []string, good bool) {
 	return []string{n.Dump(), core.Escape(text1), "ok", a2.Dump(), core.Escape(text2)}, sameN(n, a2) && text1 == text2
 }
 
+// applySigns: make the zeros whose sign bit is set negative zeros (inverse of signBits, for replays)
+func applySigns(n *core.N, bits string) {
+	i := 0
+	var rec func(x *core.N)
+	rec = func(x *core.N) {
+		if x.E != nil {
+			for _, p := range []*float64{&x.E.Len, &x.E.Sup, &x.E.Pval} {
+				if i < len(bits) && bits[i] == '1' && *p == 0 {
+					*p = negZero
+				}
+				i++
+			}
+		}
+		for _, k := range x.Kids {
+			rec(k)
+		}
+	}
+	rec(n)
+}
+
+// signBits: math.Signbit of length, support and p-value of every branch in pre-order: what tells -0.0 from 0
+// (both are the rational 0 in the dump).
+func signBits(n *core.N) string {
+	var b strings.Builder
+	var rec func(x *core.N)
+	rec = func(x *core.N) {
+		if x.E != nil {
+			for _, v := range []float64{x.E.Len, x.E.Sup, x.E.Pval} {
+				if math.Signbit(v) {
+					b.WriteByte('1')
+				} else {
+					b.WriteByte('0')
+				}
+			}
+		}
+		for _, k := range x.Kids {
+			rec(k)
+		}
+	}
+	rec(n)
+	return b.String()
+}
+
+func hasNegZero(n *core.N) bool {
+	if n.E != nil {
+		for _, v := range []float64{n.E.Len, n.E.Sup, n.E.Pval} {
+			if v == 0 && math.Signbit(v) {
+				return true
+			}
+		}
+	}
+	for _, k := range n.Kids {
+		if hasNegZero(k) {
+			return true
+		}
+	}
+	return false
+}
+
+// emitRT: a tree holding a -0.0 goes out as C01.rt0 (with the sign bits before and after), any other as C01.rt
+func emitRT(c *core.Ctx, n *core.N, f []string) {
+	if !hasNegZero(n) {
+		c.Emit("C01.rt", f...)
+		return
+	}
+	after := ""
+	// the dump cannot hold the sign: re-run to take the sign bits from the re-read tree itself (these cases are few)
+	core.NumberEdges(n)
+	if t, err := core.Build(n); err == nil {
+		if t2, oc := parseText(t.Newick()); oc == "ok" {
+			if a2, wf := core.Alpha(t2); wf.OK() {
+				after = signBits(a2)
+			}
+		}
+	}
+	c.Emit("C01.rt0", f[0], signBits(n), f[1], f[2], f[3], after, f[4])
+}
+
 func sameStrs(a, b []string) bool {
 	if len(a) != len(b) {
 		return false
@@ -187,7 +282,8 @@ func sameN(a, b *core.N) bool {
 	if a.Name != b.Name || !sameStrs(a.Comments, b.Comments) || len(a.Kids) != len(b.Kids) || (a.E == nil) != (b.E == nil) {
 		return false
 	}
-	if a.E != nil && (a.E.Len != b.E.Len || a.E.Sup != b.E.Sup || a.E.Pval != b.E.Pval || !sameStrs(a.E.Comments, b.E.Comments)) {
+	if a.E != nil && (a.E.Len != b.E.Len || a.E.Sup != b.E.Sup || a.E.Pval != b.E.Pval || !sameStrs(a.E.Comments, b.E.Comments) ||
+		math.Signbit(a.E.Len) != math.Signbit(b.E.Len) || math.Signbit(a.E.Sup) != math.Signbit(b.E.Sup) || math.Signbit(a.E.Pval) != math.Signbit(b.E.Pval)) {
 		return false
 	}
 	for i := range a.Kids {
@@ -200,7 +296,7 @@ func sameN(a, b *core.N) bool {
 
 func doRT(c *core.Ctx, n *core.N) {
 	f, _ := roundTrip(n)
-	c.Emit("C01.rt", f...)
+	emitRT(c, n, f)
 }
 
 // doRTShrink: as doRT for a tree known to satisfy WF01; when the round trip fails the tree is first
@@ -211,10 +307,10 @@ func doRTShrink(c *core.Ctx, n *core.N) {
 	if !good {
 		small := shrink(n.Clone())
 		if fs, g := roundTrip(small); !g {
-			c.Emit("C01.rt", fs...)
+			emitRT(c, small, fs)
 		}
 	}
-	c.Emit("C01.rt", f...)
+	emitRT(c, n, f)
 }
 
 func allNodes(n *core.N) []*core.N {
@@ -648,6 +744,31 @@ func doUTF8(c *core.Ctx, name string) {
 	c.Emit("C01.utf8", core.Escape(name), "ok", core.Escape(a2.Kids[0].Name), core.Escape(text1), core.Escape(t2.Newick()))
 }
 
+// doUTF8Comment: the same bytes as a node comment AND as a branch comment of one tip.
+func doUTF8Comment(c *core.Ctx, bytes string) {
+	e := core.NewE()
+	e.Len = 1
+	e.Comments = []string{bytes}
+	n := &core.N{Kids: []*core.N{{Name: "a", Comments: []string{bytes}, E: e}, {Name: "b", E: core.NewE()}, {Name: "c", E: core.NewE()}}}
+	core.NumberEdges(n)
+	t, err := core.Build(n)
+	if err != nil {
+		panic(err)
+	}
+	text1 := t.Newick()
+	t2, outcome := parseText(text1)
+	if outcome != "ok" {
+		c.Emit("C01.utf8c", core.Escape(bytes), outcome, "", "", core.Escape(text1))
+		return
+	}
+	a2, wf := core.Alpha(t2)
+	if !wf.OK() || len(a2.Kids) < 1 || len(a2.Kids[0].Comments) != 1 || a2.Kids[0].E == nil || len(a2.Kids[0].E.Comments) != 1 {
+		c.Emit("C01.utf8c", core.Escape(bytes), "shape", "", "", core.Escape(text1))
+		return
+	}
+	c.Emit("C01.utf8c", core.Escape(bytes), "ok", core.Escape(a2.Kids[0].Comments[0]), core.Escape(a2.Kids[0].E.Comments[0]), core.Escape(text1))
+}
+
 // doUTF8Inner: the same bytes as the name of an inner node.
 func doUTF8Inner(c *core.Ctx, name string) {
 	in := &core.N{Name: name, E: core.NewE(), Kids: []*core.N{{Name: "x", E: core.NewE()}, {Name: "y", E: core.NewE()}}}
@@ -685,6 +806,8 @@ var utf8Names = []string{
 
 /* ---------- trees ---------- */
 
+var negZero = math.Copysign(0, -1)
+
 var valuePool = []float64{0, 0.5, 1, 2, 0.125, 3.75, 0.1, 0.2, 0.30000000000000004, 1e-7, 123.456, 1e21, 1e22, 1e23,
 	-0.5, -2, -1.5, 100, 1234567.875, 0.000001, 9007199254740993, 0.05, 0.95, 1e-5,
 	4.35, 0.1 + 0.7, 1.0 / 3.0, 2.5e-10, 6.02214076e23}
@@ -697,6 +820,9 @@ var extremePool = []float64{5e-324, 1.7976931348623157e308, 2.2250738585072014e-
 func genValue(g *core.G, mode int) float64 {
 	for {
 		var v float64
+		if mode > 0 && g.Chance(0.004) {
+			return negZero // -0.0: the rational 0 with the sign bit set (such trees go out as C01.rt0)
+		}
 		switch r := g.Intn(10); {
 		case mode == 0 || r < 5:
 			v = float64(g.Intn(400)) / 8
